@@ -25,7 +25,7 @@ RULE = ('precedence: for each of 12 keys (9 documented, 3 unknown) a seeded choi
         'or a prefix matched; distinct by canonical case')
 ASSUMPTIONS = ['prefix items are non-empty and contain no comma', 'equality of poll cadence is judged in logical terms '
                '(timer thread alive and >= 3 polls within a generous watchdog), not by wall-clock period']
-REQUIRE = {'precedence_reads': 400, 'behaviour_sessions': 20, 'classifications': 5000, 'prefix_matched': 1500,
+REQUIRE = {'two_start_sessions': 3, 'precedence_reads': 400, 'behaviour_sessions': 20, 'classifications': 5000, 'prefix_matched': 1500,
            'exclusion_won': 200, 'reclassified_snapshots': 40}
 SHARD_TIMEOUT = {'quick': 400, 'thorough': 2400}
 
@@ -39,7 +39,8 @@ UNKNOWN = ['SERVICE_USERNAME', 'SERVICE_PASSWORD', 'MY_CUSTOM_KEY']
 def plan(tier, seed):
     n = {'quick': 1, 'thorough': 12}[tier]
     return (split_seeds('p%s' % seed, 48 * n, 8, 'precedence') + split_seeds('b%s' % seed, 16 * n, 8, 'behaviour') +
-            split_seeds('c%s' % seed, 6000 * n, 4, 'classify') + split_seeds('r%s' % seed, 24 * n, 2, 'reclassify'))
+            split_seeds('c%s' % seed, 6000 * n, 4, 'classify') + split_seeds('r%s' % seed, 24 * n, 2, 'reclassify') +
+            split_seeds('s%s' % seed, 3 * n, 3, 'twostarts'))
 
 
 # ---------------------------------------------------------------- (a) precedence
@@ -57,7 +58,7 @@ def case_precedence(seed, out, spec):
         if cv == 'value':
             code[k] = {'v': 'code-%s' % k.lower()}
         elif cv == 'callable':
-            code[k] = {'call': 'called-%s' % k.lower()}
+            code[k] = {'call': 'called-%s' % k.lower(), 'how': r.pick(['lambda', 'partial', 'method', 'object'])}
         elif cv == 'none':
             code[k] = {'v': None}
         elif cv == 'falsy':
@@ -101,12 +102,35 @@ def case_precedence(seed, out, spec):
                      'resolved': {k: res['values'][k] for k in keys[:6]}})
 
 
+class _Provider:
+    def __init__(self, x):
+        self.x = x
+
+    def get(self):
+        return self.x
+
+    def __call__(self):
+        return self.x
+
+
+def _callable(x, how):
+    """A setting given in code as something to call: any of the usual spellings."""
+    import functools
+    if how == 'partial':
+        return functools.partial(lambda y: y, x)
+    if how == 'method':
+        return _Provider(x).get
+    if how == 'object':
+        return _Provider(x)
+    return lambda: x
+
+
 def child_precedence(arg):
     from deep.config import ConfigService
     custom = {}
     for k, v in arg['code'].items():
         if 'call' in v:
-            custom[k] = (lambda x: (lambda: x))(v['call'])
+            custom[k] = _callable(v['call'], v.get('how', 'lambda'))
         else:
             custom[k] = v['v']
     cfg = ConfigService(custom)
@@ -165,6 +189,53 @@ def case_behaviour(seed, out, spec):
         return
     out.count('behaviour_sessions', 2)
     out.case({'setting': setting, 'variant': variant}, nontrivial=True, sample=witness)
+
+
+def case_twostarts(seed, out, spec):
+    """deep.start() twice in one process without arguments: each start resolves the application root afresh (from the
+    DEEP_APP_ROOT of that moment, else from its caller), nothing is carried over from the first start."""
+    r = Rng('c19s', seed)
+    combos = [(None, '/second/root'), ('/first/root', '/second/root'), ('/first/root', None)]
+    first_env, second_env = combos[int(str(seed).split(':')[-1]) % 3]
+    res = e2e.call_child('vf.props.c19', 'child_twostarts', {'first': first_env, 'second': second_env}, timeout=90)
+    replay = replay_spec(spec, seed)
+    witness = {'DEEP_APP_ROOT_at_first_start': first_env, 'DEEP_APP_ROOT_at_second_start': second_env, 'result': _trim(res)}
+    if res.get('inconclusive'):
+        out.inconc('C19 two starts: ' + res['inconclusive'])
+        return
+    if res.get('child_failed'):
+        out.violation('environment:app_root-session-failed', 'two argument-less starts failed: %s' % res.get('stderr', '')[-400:],
+                      witness, replay)
+        return
+    for which, env_v, got in (('first', first_env, res['roots'][0]), ('second', second_env, res['roots'][1])):
+        want = env_v if env_v else res['caller_root']
+        if got != want:
+            out.violation('environment:app_root-not-honoured',
+                          'the %s argument-less start resolved APP_ROOT to %r, expected %r (DEEP_APP_ROOT=%r, caller '
+                          'directory %r)' % (which, got, want, env_v, res['caller_root']), witness, replay)
+            return
+    out.count('two_start_sessions')
+    out.case({'first': first_env, 'second': second_env}, nontrivial=True, sample=witness)
+
+
+def child_twostarts(arg):
+    import os
+    os.environ['DEEP_SERVICE_URL'] = '127.0.0.1:1'
+    os.environ['DEEP_POLL_TIMER'] = '3600'
+    import deep
+    roots = []
+    for v in (arg['first'], arg['second']):
+        if v is None:
+            os.environ.pop('DEEP_APP_ROOT', None)
+        else:
+            os.environ['DEEP_APP_ROOT'] = v
+        agent = deep.start()
+        roots.append(agent.config.APP_ROOT)
+        try:
+            agent.shutdown()
+        except BaseException:  # noqa
+            pass
+    return {'roots': roots, 'caller_root': os.path.dirname(os.path.dirname(os.path.abspath(__file__)))}
 
 
 def _trim(res):
@@ -315,7 +386,7 @@ def case_classify(seed, out, spec):
     path = root + '/' + r.pick(FILES)
     inc = r.sample(ROOTS, r.randrange(0, 4))
     exc = r.sample(ROOTS, r.randrange(0, 4))
-    app_root = r.pick(ROOTS + ['/nonexistent'])
+    app_root = r.pick(ROOTS + ['/nonexistent', ''])   # '' = no root worked out: every path starts with it
     form = r.pick(['list', 'list', 'text', 'callable'])
     custom = {'APP_ROOT': app_root}
     if form == 'list':
@@ -421,5 +492,7 @@ def run_shard(spec, out):
             case_behaviour(seed, out, spec)
         elif spec['kind'] == 'reclassify':
             case_reclassify(seed, out, spec)
+        elif spec['kind'] == 'twostarts':
+            case_twostarts(seed, out, spec)
         else:
             case_classify(seed, out, spec)
